@@ -3,6 +3,7 @@ import HappyProofs.C18.SameUpdates
 import HappyProofs.C18.StoreRefine
 import HappyProofs.C18.Exchange
 import HappyProofs.C18.StoreDeliver
+import HappyProofs.C18.StoreGossip
 import HappyProofs.C18.KClock
 import HappyModel.C18.Spec
 /-!
@@ -472,6 +473,47 @@ theorem store_exchange_converges (kind : Kind) (n : Nat) (peers : List (List Nat
       (storeRep kind n peers steps a k).lww.cur = (storeRep kind n peers steps b k).lww.cur) := by
   rw [store_refines_replicas, store_refines_replicas, hsplit]
   exact exchange_all_converges ops R ex closed full a b ha hb
+
+/-- liveness of gossip: let a script end in a gossip-only phase `suf` (ticks, deliveries, lossless
+    rounds — no client write), whatever happened and was lost before (`pre`). The phase is, for
+    every key, an exchange of states (`gossipPairs`: the merges it performs, through the messages
+    it builds); if inside a group `R` of stores and messages every member's state reaches every
+    member, the stores of the group end up equal. -/
+def gossipPairs (kind : Kind) (n : Nat) (peers : List (List Nat)) (pre suf : List SStep) (k : Nat) :
+    List (Nat × Nat) :=
+  mergePairs (keyOps k (PSt.ops .repaired kind
+    (PSt.runP .repaired kind { n := n, peers := peers } pre) suf))
+
+theorem store_gossip_phase_converges (kind : Kind) (n : Nat) (peers : List (List Nat))
+    (pre suf : List SStep) (k : Nat) (hg : ∀ x ∈ suf, x.isGossip = true) (R : List Nat)
+    (closed : ∀ e ∈ gossipPairs kind n peers pre suf k, e.1 ∈ R → e.2 ∈ R)
+    (full : ∀ a ∈ R, ∀ b ∈ R, b ∈ reach (gossipPairs kind n peers pre suf k) [a])
+    (a b : Nat) (ha : a ∈ R) (hb : b ∈ R) :
+    (storeRep kind n peers (pre ++ suf) a k).pn.value = (storeRep kind n peers (pre ++ suf) b k).pn.value ∧
+    (∀ x, (storeRep kind n peers (pre ++ suf) a k).os.has x =
+          (storeRep kind n peers (pre ++ suf) b k).os.has x) ∧
+    (OpsCoherent (storeOps kind n peers pre k ++ merges (gossipPairs kind n peers pre suf k)) →
+      (storeRep kind n peers (pre ++ suf) a k).lww.cur =
+      (storeRep kind n peers (pre ++ suf) b k).lww.cur) := by
+  have hsplit : storeOps kind n peers (pre ++ suf) k =
+      storeOps kind n peers pre k ++ merges (gossipPairs kind n peers pre suf k) := by
+    unfold storeOps gossipPairs
+    rw [ops_append, keyOps_append]
+    congr 1
+    exact keyOps_of_merges k _ (gossip_ops_merge kind _ suf hg)
+  exact store_exchange_converges kind n peers (pre ++ suf) k _ R _ hsplit closed full a b ha hb
+
+/-- non-vacuity: both stores write, both pushes are lost; after the heal
+    one lossless round per store: every store's state reaches every store -/
+example :
+    let pre := [SStep.w 0 0 (.inc 5), .w 1 0 (.inc 2), .tick 0 0, .tick 1 0]
+    let suf := [SStep.round 0 0, .round 1 0]
+    let ex := gossipPairs .g 2 [[1], [0]] pre suf 0
+    ex = [(4, 0), (1, 4), (5, 1), (0, 5), (6, 1), (0, 6), (7, 0), (1, 7)] ∧
+    (∀ x ∈ suf, x.isGossip = true) ∧
+    (∀ a ∈ [0, 1], ∀ b ∈ [0, 1], b ∈ reach ex [a]) ∧
+    (storeRep .g 2 [[1], [0]] (pre ++ suf) 0 0).pn.value = 7 ∧
+    (storeRep .g 2 [[1], [0]] (pre ++ suf) 1 0).pn.value = 7 := by decide
 
 /-- non-vacuity: three stores write, then gossip in a ring with one duplicate delivery and one lost
     response; replicas 0–2 are the stores, 3… the messages; every store's state reaches every store -/
